@@ -201,9 +201,25 @@ def check_names(ctx, rng, reg):
     os.stat = lambda *_a, **_k: _St()
     try:
         gid = appcfg.gen_uniqueid('/nonexistent/' + inst)
+        # the unique name of an event file belongs to one generation of the file: the same instance placed again on
+        # the node (same path, new inode / ctime) is another container
+        path = '/nonexistent/cache/' + inst
+        name1 = appcfg.eventfile_unique_name(path)
+
+        class _St2:
+            st_ctime = ctime + rng.choice([1.0, 0.5, 0.25])     # (the id keeps 13 bits of the microsecond clock: not a multiple of 8192 us)
+            st_ino = (ino + rng.choice([0, 1, 12345])) % 2 ** 64
+        os.stat = lambda *_a, **_k: _St2()
+        name2 = appcfg.eventfile_unique_name(path)
+        os.stat = lambda *_a, **_k: _St()
+        name3 = appcfg.eventfile_unique_name(path)
     finally:
         os.stat = real_stat
     ctx.count('uniqueid_stat')
+    if name1 == name2 or name3 != name1:
+        ctx.violation('unique-name:two-generations-share-a-name' if name1 == name2 else 'unique-name:not-a-function-of-the-file',
+                      '%s: generation (ctime %r, ino %d) -> %s, generation (ctime %r, ino %d) -> %s, first again -> %s' % (
+                          inst, ctime, ino, name1, _St2.st_ctime, _St2.st_ino, name2, name3), case=case)
     instance_no = int(inst.rpartition('#')[2])
     expect = ((int(ctime * 10 ** 6) << 64) + ((ino ^ (instance_no << 31)) & (2 ** 64 - 1))) & (2 ** 77 - 1)
     if len(gid) != 13 or any(c not in numerals for c in gid) or utils.from_base_n(gid, base=62, alphabet=numerals) != expect:
